@@ -3,7 +3,7 @@
 //	part E  common/bitutil CompressBytes/DecompressBytes around the break-even density (cases cz, dz; judgement J6 bitutil-roundtrip)
 //	part F  a chain in which busy contracts log in exactly 218/219/220 of the 256 eight-block groups of a 2048-block section, so
 //	        that a stored bit vector's encoding is one byte shorter than / exactly as long as / one byte longer than the vector
-//	part G  the real core.ChainIndexer (own ChainIndexerBackend = what aqua.BloomIndexer does, plus a hook) with a reorg landing
+//	part G  the real core.ChainIndexer over the REAL aqua.BloomIndexer backend (plus a hook) with a reorg landing
 //	        while processSection is between two headers; afterwards Filter.Logs vs brute force over the final canonical chain
 package main
 
@@ -16,13 +16,13 @@ import (
 	"strings"
 	"time"
 
+	"gitlab.com/aquachain/aquachain/aqua"
 	"gitlab.com/aquachain/aquachain/aqua/event"
 	"gitlab.com/aquachain/aquachain/aquadb"
 	"gitlab.com/aquachain/aquachain/common"
 	"gitlab.com/aquachain/aquachain/common/bitutil"
 	"gitlab.com/aquachain/aquachain/consensus/aquahash"
 	"gitlab.com/aquachain/aquachain/core"
-	"gitlab.com/aquachain/aquachain/core/bloombits"
 	"gitlab.com/aquachain/aquachain/core/types"
 	"gitlab.com/aquachain/aquachain/params"
 	"verifharness/hx"
@@ -245,45 +245,21 @@ func (g *gen) partBusy(d *dropper) {
 // ---------------------------------------------------------------------------------------------------------------------
 // part G
 
-// idxBackend is what aqua.BloomIndexer does (Reset / Process / Commit), plus a hook fired once right after the header with
-// number `at` went through Process.
-type idxBackend struct {
-	db      aquadb.Database
-	size    uint64
-	gen     *bloombits.Generator
-	section uint64
-	head    common.Hash
-	at      uint64
-	fired   bool
-	fn      func()
+// hookBackend is the REAL aqua.BloomIndexer backend (Reset / Process / Commit as compiled from aqua/bloombits.go) plus a hook
+// fired once right after the header with number `at` went through Process.
+type hookBackend struct {
+	*aqua.BloomIndexer
+	at    uint64
+	fired bool
+	fn    func()
 }
 
-func (b *idxBackend) Reset(section uint64, lastSectionHead common.Hash) error {
-	gen, err := bloombits.NewGenerator(uint(b.size))
-	b.gen, b.section, b.head = gen, section, common.Hash{}
-	return err
-}
-
-func (b *idxBackend) Process(header *types.Header) {
-	b.gen.AddBloom(uint(header.Number.Uint64()-b.section*b.size), header.Bloom)
-	b.head = header.Hash()
-	if !b.fired && b.fn != nil && header.Number.Uint64() == b.at {
-		b.fired = true
-		b.fn()
+func (h *hookBackend) Process(header *types.Header) {
+	h.BloomIndexer.Process(header)
+	if !h.fired && h.fn != nil && header.Number.Uint64() == h.at {
+		h.fired = true
+		h.fn()
 	}
-}
-
-func (b *idxBackend) Commit() error {
-	batch := b.db.NewBatch()
-	for i := 0; i < types.BloomBitLength; i++ {
-		bits, err := b.gen.Bitset(uint(i))
-		if err != nil {
-			return err
-		}
-		noteVec(bits)
-		core.WriteBloomBits(batch, uint(i), b.section, b.head, bitutil.CompressBytes(bits))
-	}
-	return batch.Write()
 }
 
 type idxChain struct {
@@ -376,7 +352,7 @@ func (g *gen) reorgScenario(d *dropper, ancestor int, switchAt uint64) {
 	chain := &idxChain{head: chainA[len(chainA)-1].Header()}
 	reorged := make(chan struct{})
 	nB := len(chainB)
-	hook := &idxBackend{db: db, size: size, at: switchAt}
+	hook := &hookBackend{BloomIndexer: aqua.VerifBloomBackend(db, size), at: switchAt}
 	hook.fn = func() {
 		// what core.BlockChain does on a reorg: rewrite number->hash and the head, then post the chain events
 		canonical(chainB)
@@ -487,5 +463,175 @@ func (g *gen) partReorg(n int, d *dropper) {
 		t0 := time.Now()
 		g.reorgScenario(d, ancestor, uint64(sw))
 		g.run.Notes[fmt.Sprintf("reorg%d_s", i)] = fmt.Sprintf("%.1f", time.Since(t0).Seconds())
+	}
+}
+
+// ---------------------------------------------------------------------------------------------------------------------
+// part H: the node's own wiring — aqua.NewBloomIndexer (256 confirmations, throttling), aqua.startBloomHandlers and
+// AquaApiBackend.BloomStatus/ServiceFilter (section size params.BloomBitsBlocks) — through: index section 0 on fork A, query;
+// reorg to the heavier fork B whose common ancestor lies inside section 0; the chain indexer re-processes the section; query again.
+
+func (g *gen) reindexScenario(d *dropper, ancestor int) {
+	run := g.run
+	size := int(params.BloomBitsBlocks)
+	const confirms = 256
+	lenA, lenB := size+confirms+4, size+confirms+14
+	run.Current(fmt.Sprintf("reindex ancestor=%d (building)", ancestor))
+	place := func(lo, hi, n int, forced []int) map[int]receiptSet {
+		out := map[int]receiptSet{}
+		nums := append([]int{}, forced...)
+		for i := 0; i < n; i++ {
+			nums = append(nums, lo+g.r.Intn(hi-lo+1))
+		}
+		for _, x := range nums {
+			if x < lo || x > hi {
+				continue
+			}
+			rs := g.receipts(uint64(x) * 100)
+			for t := 0; t < 20 && len(rs.flat()) == 0; t++ {
+				rs = g.receipts(uint64(x) * 100)
+			}
+			out[x] = rs
+		}
+		return out
+	}
+	common_ := place(1, ancestor, 8, []int{1, ancestor})
+	onlyA := place(ancestor+1, lenA, 12, []int{ancestor + 1, size - 1, size})
+	onlyB := place(ancestor+1, lenB, 14, []int{ancestor + 1, ancestor + 2, (ancestor + size) / 2, size - 1, size, size + 1})
+	merge := func(a, b map[int]receiptSet) map[int]receiptSet {
+		out := map[int]receiptSet{}
+		for n, rs := range a {
+			out[n] = rs
+		}
+		for n, rs := range b {
+			out[n] = rs
+		}
+		return out
+	}
+	blocksA := merge(common_, onlyA)
+	db := aquadb.NewMemDatabase()
+	genesis := core.GenesisBlockForTesting(db, common.Address{1}, big.NewInt(1000000))
+	chainA, receiptsA := core.GenerateChain(context.TODO(), params.TestChainConfig, genesis, aquahash.NewFaker(), db, lenA, func(i int, bg *core.BlockGen) {
+		if rs, ok := blocksA[i+1]; ok {
+			for _, rc := range rs.real(uint64(i + 1)) {
+				bg.AddUncheckedReceipt(rc)
+			}
+		}
+	})
+	run.Current(fmt.Sprintf("reindex ancestor=%d (building fork B)", ancestor))
+	chainB, receiptsB := core.GenerateChain(context.TODO(), params.TestChainConfig, chainA[ancestor-1], aquahash.NewFaker(), db, lenB-ancestor, func(i int, bg *core.BlockGen) {
+		bg.SetCoinbase(common.Address{0xb})
+		if rs, ok := onlyB[ancestor+i+1]; ok {
+			for _, rc := range rs.real(uint64(ancestor + i + 1)) {
+				bg.AddUncheckedReceipt(rc)
+			}
+		}
+	})
+	write := func(blocks []*types.Block, receipts []types.Receipts) {
+		for i, block := range blocks {
+			core.WriteBlock(db, block)
+			core.WriteBlockReceipts(db, block.Hash(), block.NumberU64(), receipts[i])
+		}
+	}
+	canonical := func(blocks []*types.Block) {
+		for _, block := range blocks {
+			core.WriteCanonicalHash(db, block.Hash(), block.NumberU64())
+		}
+		head := blocks[len(blocks)-1]
+		core.WriteHeadBlockHash(db, head.Hash())
+		core.WriteHeadHeaderHash(db, head.Hash())
+	}
+	write(chainA, receiptsA)
+	write(chainB, receiptsB)
+	canonical(chainA)
+
+	chain := &idxChain{head: chainA[len(chainA)-1].Header()}
+	indexer := aqua.NewBloomIndexer(params.TestChainConfig, db, uint64(size)) // the node's constructor: confirmations + throttling
+	defer indexer.Close()
+	node := aqua.VerifNewBloomNode(params.TestChainConfig, db, indexer)
+	defer node.Close()
+	run.Current(fmt.Sprintf("reindex ancestor=%d (indexing fork A)", ancestor))
+	indexer.Start(chain)
+	waitIndexed := func(repost *types.Block) bool {
+		deadline := time.Now().Add(240 * time.Second)
+		stable := 0
+		for {
+			time.Sleep(20 * time.Millisecond)
+			if sections, _, _ := indexer.Sections(); sections == 1 && (chain.sink == nil || chain.drained()) {
+				stable++
+				if stable >= 3 {
+					return true
+				}
+				continue
+			}
+			stable = 0
+			if time.Now().After(deadline) {
+				return false
+			}
+			if repost != nil && chain.drained() {
+				chain.post(repost)
+			}
+		}
+	}
+	mkcd := func(blocks map[int]receiptSet, nblocks int) chainData {
+		cd := chainData{size: size, attempted: 1, nblocks: nblocks, blocks: blocks}
+		for n := range blocks {
+			cd.nums = append(cd.nums, n)
+		}
+		sort.Ints(cd.nums)
+		return cd
+	}
+	phase := func(tag string, cd chainData, probe map[int]receiptSet) {
+		chainLine := cd.line()
+		run.Count("op:chain")
+		run.Count("reindex-scenario:" + tag)
+		run.Case(chainLine, "ok")
+		_, sections := node.BloomStatus()
+		be := &backend{db: db, size: uint64(size), sections: sections, d: d, mux: new(event.TypeMux), feed: new(event.Feed), node: node}
+		var pl []lg
+		for n, rs := range probe {
+			if n < size {
+				pl = append(pl, rs.flat()...)
+			}
+		}
+		sort.Slice(pl, func(i, j int) bool { return pl[i].id < pl[j].id })
+		for _, r := range [][2]int64{{0, -1}, {0, int64(size - 1)}, {int64(ancestor), int64(size)}, {int64(ancestor + 1), int64(size - 1)}} {
+			g.query(be, cd, chainLine, r[0], r[1], crit{})
+			var from *lg
+			if len(pl) > 0 {
+				from = &pl[g.r.Intn(len(pl))]
+				g.query(be, cd, chainLine, r[0], r[1], crit{addrs: []item{from.addr}})
+			}
+			g.query(be, cd, chainLine, r[0], r[1], g.crit(from))
+		}
+	}
+	if !waitIndexed(nil) {
+		run.Violate("hang", "indexer-hang", fmt.Sprintf("reindex ancestor=%d phase A", ancestor), "the bloom indexer never stored section 0")
+		return
+	}
+	phase("fork-A-indexed", mkcd(blocksA, lenA), onlyA)
+	// the reorg: what core.BlockChain does (canonical rewrite + chain events); the indexer drops section 0 and re-processes it
+	run.Current(fmt.Sprintf("reindex ancestor=%d (reorg, re-indexing)", ancestor))
+	nB := len(chainB)
+	canonical(chainB)
+	chain.post(chainB[nB-3])
+	chain.post(chainB[nB-2])
+	for !chain.drained() {
+		time.Sleep(2 * time.Millisecond)
+	}
+	if !waitIndexed(chainB[nB-1]) {
+		run.Violate("hang", "indexer-hang", fmt.Sprintf("reindex ancestor=%d phase B", ancestor), "the bloom indexer never re-stored section 0 after the reorg")
+		return
+	}
+	phase("fork-B-reindexed", mkcd(merge(common_, onlyB), lenB), onlyB)
+}
+
+func (g *gen) partReindex(n int, d *dropper) {
+	size := int(params.BloomBitsBlocks)
+	for i := 0; i < n; i++ {
+		ancestor := 100 + g.r.Intn(size-600)
+		t0 := time.Now()
+		g.reindexScenario(d, ancestor)
+		g.run.Notes[fmt.Sprintf("reindex%d_s", i)] = fmt.Sprintf("%.1f", time.Since(t0).Seconds())
 	}
 }
